@@ -26,8 +26,10 @@ func c10Drivers(thorough bool) []*engine.HDriver {
 
 func init() {
 	engine.Register(&engine.Check{
-		ID:      "C10",
-		Drivers: func(c *engine.Ctx) []*engine.HDriver { return c10Drivers(c.Thorough) },
+		ID:        "C10",
+		NeedsRace: true,
+		Drivers:   func(c *engine.Ctx) []*engine.HDriver { return c10Drivers(c.Thorough) },
+		Scenarios: func(c *engine.Ctx) []*engine.SScenario { return teardownScenarios(c.Thorough) },
 		Run: func(c *engine.Ctx) *engine.Report {
 			rep := &engine.Report{Level: "model_checking", Coverage: map[string]any{"exhaustive": true}}
 			for _, d := range c10Drivers(c.Thorough) {
@@ -40,6 +42,8 @@ func init() {
 				rep.Coverage["closure_reached"] = st.Closure
 				rep.Coverage["max_depth"] = st.MaxDepth
 			}
+			mergeS(c, rep, teardownScenarios(c.Thorough), engine.SPlan{Bounds: boundsFor(c, []int{0, 1, 2}, []int{0, 1, 2, 3}), Race: true, RaceMaxBound: 1,
+				RaceFuncs: []string{"RemoveSubscriptionsFor", "RemoveBindingsFor", "RemoveRemoteDevice", "CleanRemote", "CleanWriteApproval"}})
 			return rep
 		},
 	})
